@@ -68,7 +68,7 @@ var propCfgs = map[string]propCfg{
 	"C08": {Profile: "tx", Level: "exploration", Quick: 4000, Thorough: 300000},
 	"C09": {Profile: "integrity", Level: "exploration", Quick: 5000, Thorough: 300000},
 	"C17": {Profile: "snap", Level: "exploration", Quick: 3000, Thorough: 150000},
-	"C18": {Profile: "conc", Level: "exploration", Quick: 2500, Thorough: 60000, Race: true},
+	"C18": {Profile: "conc", Level: "exploration", Quick: 4000, Thorough: 60000, Race: true},
 }
 
 // ---------- worker ----------
@@ -974,7 +974,11 @@ func cmdDigest(t *testing.T, args []string) int {
 	profile, prop := args[0], args[1]
 	base, _ := strconv.ParseUint(args[2], 10, 64)
 	n, _ := strconv.Atoi(args[3])
-	for i := 0; i < n; i++ {
+	from := 0
+	if len(args) > 4 { // digest <profile> <prop> <base> <n> <from>: only the runs from..n-1
+		from, _ = strconv.Atoi(args[4])
+	}
+	for i := from; i < n; i++ {
 		plan := genFor(profile, prop, runSeed(base, i))
 		opt := execOptFor(prop)
 		dump := os.Getenv("DSIM_DIGEST_DUMP") == strconv.Itoa(i)
